@@ -464,11 +464,6 @@ fn own_c07(m: &Mis, op: &Op, pre: &Model) -> Option<String> {
             return Some(format!("C07/overwrote-readable/{}", m.aspect));
         }
     }
-    if let Op::Read { .. } = op {
-        if m.aspect == "read" && m.class == "wrong-value" && pre.last_mutation.starts_with("put") && !pre.last_mutation.starts_with("put_or") {
-            return Some("C07/overwrote-readable/value".to_string());
-        }
-    }
     None
 }
 
@@ -531,9 +526,6 @@ fn own_c16(m: &Mis, _op: &Op, _pre: &Model) -> Option<String> {
     // their exact values are not C16's business.
     if m.aspect == "stats.identity" {
         return Some(format!("C16/{}/seq", m.class));
-    }
-    if m.aspect == "stats.keys_rejected" {
-        return Some("C16/rejected/seq".to_string());
     }
     if m.aspect == "hit_ratio" {
         return Some(format!("C16/hit-ratio/{}", m.ctx));
